@@ -32,6 +32,8 @@ def _nice_seconds(rng, dyadic, lo_us=1000, hi_us=3_000_000):
 
 def gen_c16(rng, tier):
     dyadic = rng.random() < 0.4
+    marathon = rng.random() < (0.02 if tier == "quick" else 0.05)
+    far = marathon or rng.random() < 0.1        # the clock is weeks from boot
     ops = []
     for _ in range(rng.choice([1, 1, 2, 3])):
         if rng.random() < 0.15:
@@ -52,7 +54,10 @@ def gen_c16(rng, tier):
         if len(ops) > 6 and rng.random() < 0.3:
             ops.append(["stale_wait"])      # somebody still calls wait() on the delay that was released before
         style = rng.choice(["short", "mixed", "overrun", "exact"])
-        for _ in range(rng.choice([2, 5, 10, 25] if tier == "quick" else [3, 10, 30, 60])):
+        n_waits = rng.choice([2, 5, 10, 25] if tier == "quick" else [3, 10, 30, 60])
+        if marathon and len(ops) < 8:
+            n_waits, style = rng.choice([1200, 1500, 2500]), "short"     # one delay paces a long run
+        for _ in range(n_waits):
             r = rng.random()
             if style == "short" or (style == "mixed" and r < 0.6):
                 body = rng.randint(0, max(1, p_us - 1))
@@ -60,6 +65,8 @@ def gen_c16(rng, tier):
                 body = rng.choice([p_us, p_us, 2 * p_us, p_us - 1, p_us + 1, 0])
             else:
                 body = rng.choice([p_us + rng.randint(1, p_us), 3 * p_us + rng.randint(0, p_us), 7 * p_us, rng.randint(0, 5 * p_us)])
+            if not marathon and rng.random() < 0.01:
+                body = rng.choice([301, 1000, 86400]) * 10**6 + rng.randint(0, p_us)      # the loop stalls for minutes
             if dyadic:
                 body = (body // GRID_US) * GRID_US
             ops.append(["body", int(body)])
@@ -73,7 +80,10 @@ def gen_c16(rng, tier):
         for _ in range(rng.choice([0, 1, 3])):
             ops.append(["body", rng.randint(0, 2 * p_us)])
             ops.append(["wait", 0])
-    return {"dyadic": dyadic, "boot_us": rng.choice([0, 5, 64, 100000]) * (GRID_US if dyadic else 1)}, ops
+    boot = rng.choice([0, 5, 64, 100000]) * (GRID_US if dyadic else 1)
+    if far:
+        boot = rng.choice([50, 126]) * 86400 * 10**6 + (0 if dyadic else rng.choice([0, 7, 999_983]))
+    return {"dyadic": dyadic, "boot_us": boot}, ops
 
 
 def gen_c19(rng, tier):
@@ -104,6 +114,7 @@ def gen_c19(rng, tier):
 
     if kind in ("toggle", "toggle_db", "debouncer"):
         level = False
+        reentrant = rng.random() < 0.15
         p_flip = rng.choice([0.1, 0.3, 0.5, 0.8])
         for _ in range(n):
             ops.append(["adv", int(adv())])
@@ -116,8 +127,11 @@ def gen_c19(rng, tier):
                 ops.append(["sample", int(level), rng.choice(["get", "get", "bool"])])
             else:
                 ops.append(["sample", int(level), rng.choice(["get", "on", "off", "bool"])])
+                if reentrant and rng.random() < 0.3:
+                    # the joystick object reads the same toggle while it is being sampled (a telemetry proxy)
+                    ops[-1].append(rng.choice(["on", "get", "off"]))
     elif kind == "pfilter":
-        cfg["bypass"] = rng.choice([logging.WARNING, logging.WARNING, logging.INFO, logging.ERROR, logging.DEBUG])
+        cfg["bypass"] = rng.choice([logging.WARNING, logging.WARNING, logging.INFO, logging.ERROR, logging.DEBUG, logging.NOTSET])
         for _ in range(n):
             ops.append(["adv", int(adv())])
             ops.append(["record", rng.choice([logging.DEBUG, logging.INFO, logging.INFO, logging.WARNING, logging.ERROR, logging.CRITICAL, 25])])
@@ -393,9 +407,13 @@ class _Joy:
     def __init__(self):
         self.level = False
         self.reads = 0
+        self.reenter = None
 
     def getRawButton(self, n):
         self.reads += 1
+        if self.reenter is not None:
+            f, self.reenter = self.reenter, None
+            f()
         return self.level
 
 
@@ -465,6 +483,11 @@ def _toggle(plan, world, R, cfg, exact):
                 latest = now
             else:
                 sig = False
+        if len(op) > 3 and op[3]:
+            # a nested sample at the same instant and level, taken while the outer one is reading the button: the
+            # two together are one sample as far as edges are concerned
+            joy.reenter = {"on": lambda: tg.on, "off": lambda: tg.off, "get": tg.get}[op[3]]
+            R.fault("reentrant_sample")
         try:
             if op[2] == "get":
                 got = tg.get()
@@ -480,6 +503,7 @@ def _toggle(plan, world, R, cfg, exact):
                 val = (not got) if isinstance(got, bool) else got
         except Exception as e:
             R.fail("exception", idx, op, f"{type(e).__name__}: {e}")
+        joy.reenter = None
         edge = sig and not prev_sig
         if edge:
             state = not state
